@@ -114,6 +114,23 @@ CHECKS = {
              'definitional pairing on a sample; another identity (key or object), another master key or a modified ciphertext must change the bytes (degenerate cases excluded by the model).',
         note='Trusted: oracle/bls.py; library pairing as instrument for the always-on comparison.',
         ref='DESIGN.md section 3 C16'),
+    'C17': dict(
+        technique='ASan+UBSan on the workloads of all other properties, hostile-buffer workload through the Go-binding protocol under ASan+UBSan and flush against PROT_NONE guard pages, libFuzzer in the thorough tier',
+        text='(1) the workloads of C01-C16 and C18 are re-run under clang ASan+UBSan (thorough: also 32-bit-word and gcc builds), any report or crash is a violation keyed by report kind and '
+             'source location; (2) valid buffers of every object kind and their hostile neighbourhood (truncations, extensions, first byte 0/1/2/255, bit flips, element garbage, random '
+             'bytes up to 4 KiB) go through set_length -> exact-size allocation -> unmarshal -> marshal, under sanitizers and, on the production build, flush against guard pages at '
+             'either end; length discovery is compared with an independent statement of the format; (3) field/group/pairing operations on operands flush against guard pages because '
+             'the assembly is invisible to ASan; (4) thorough: 400k libFuzzer executions of the same protocol.',
+        note='A clean sanitizer run is not memory safety: red-zone tools miss intra-object and far overruns (C06 guard words and the C08 cursor monitor cover the two fixed-size internal buffers). '
+             'The Go bindings are not executed (no toolchain); their allocation protocol is reproduced in C.',
+        ref='DESIGN.md section 3 C17'),
+    'C18': dict(
+        technique='differential monitor: same operation with distinct and with aliased output on identical operands, 158 (operation, pattern) rows across all layers and the C wrappers, on several builds',
+        text='For every operation whose signature does not mark an operand __restrict (multi-precision integers incl. multi-word shifts and divisions, Fq/Fr, Fq2/Fq6/Fq12 incl. sparse '
+             'products, Frobenius, cyclotomic and GT exponentiation, final exponentiation, curve add/double/negate/multiply in all variants, C wrappers with result==a / ==b) the result with '
+             'out=a, out=b, out=a=b must equal the non-aliased result (bytes for integers and field elements, group equality for points). Restrict operands are never aliased.',
+        note='The non-aliased result is what C02-C08 judge. Operand values: specials + seeded random (24 per row quick, 1200 thorough).',
+        ref='DESIGN.md section 3 C18'),
 }
 
 NOT_YET = 'check not built yet in this round (planned, see DESIGN.md section 3)'
